@@ -1,7 +1,8 @@
 #!/usr/bin/env python3
 """Run every seeded mutation under seeded/ against its property's quick check, in scratch worktrees of the
 repository (GROG_REPO), several in parallel; evidence and replays of these runs go to scratch directories.
-Writes seeded/RESULTS.md and records `final_run` in each meta.json.   tools/seeded_all.py [-j 3] [--only C01,C02]"""
+Writes seeded/RESULTS.md and records `final_run` (with --first: `first_run`) in each meta.json.
+tools/seeded_all.py [-j 3] [--only C01,C02] [--ids C11-m10,C11-m11] [--first]"""
 import argparse, json, os, subprocess, sys, shutil, time
 from concurrent.futures import ThreadPoolExecutor
 import threading, queue
@@ -11,11 +12,13 @@ def sh(cmd, **kw):
     return subprocess.run(cmd, shell=True, capture_output=True, text=True, **kw)
 
 def main():
-    ap = argparse.ArgumentParser(); ap.add_argument("-j", type=int, default=3); ap.add_argument("--only")
+    ap = argparse.ArgumentParser(); ap.add_argument("-j", type=int, default=3); ap.add_argument("--only"); ap.add_argument("--ids"); ap.add_argument("--first", action="store_true")
     a = ap.parse_args()
     ids = sorted(d for d in os.listdir(os.path.join(VERIF, "seeded")) if os.path.isfile(os.path.join(VERIF, "seeded", d, "patch.diff")))
     if a.only:
         ids = [i for i in ids if i.split("-")[0] in a.only.split(",")]
+    if a.ids:
+        ids = [i for i in ids if i in a.ids.split(",")]
     base = os.path.join("/tmp", "seeded_all_%d" % os.getpid())
     os.makedirs(base)
     wts = queue.Queue()
@@ -54,7 +57,7 @@ def main():
             print(f"{mid} {prop}: {verdict} ({wall:.0f}s)", flush=True)
             results[mid] = verdict
             mp = os.path.join(VERIF, "seeded", mid, "meta.json")
-            meta = json.load(open(mp)); meta["final_run"] = verdict
+            meta = json.load(open(mp)); meta["first_run" if a.first else "final_run"] = verdict
             json.dump(meta, open(mp, "w"), indent=1)
     while not wts.empty():
         sh(f"git -C /repo worktree remove --force {wts.get()}")
